@@ -52,6 +52,10 @@ pub struct Work {
     pub looks: Vec<Vec<usize>>,
     pub preload: Vec<usize>,
     pub threads: Vec<Vec<Op>>,
+    /// the cache is 'static and enhance_hot_reloading() is called before the threads start: hot_reload() calls made
+    /// afterwards are allowed (and have nothing to do) and must still return
+    #[serde(default)]
+    pub static_mode: bool,
 }
 fn lk_text(peers: &[usize]) -> String {
     peers.iter().map(|p| if *p >= 100 { format!("leaf:k{}", p - 100) } else { format!("q{p}") }).collect::<Vec<_>>().join(" ")
@@ -148,7 +152,7 @@ impl Property for C08 {
             threads[t].insert(at + 1, Op::HotReload);
         }
         let preload = (0..nl).filter(|_| g.chance(3, 4)).collect();
-        (knobs, serde_json::to_value(Work { looks, preload, threads }).unwrap())
+        (knobs, serde_json::to_value(Work { looks, preload, threads, static_mode: g.chance(1, 5) }).unwrap())
     }
     fn execute(&self, case: &Case) -> Outcome {
         let w: Work = serde_json::from_value(case.work.clone()).unwrap();
@@ -227,7 +231,8 @@ fn scenario(w: Work, nt: Shared<bool>) {
         }
     }
     let src = SimSource::new(tree, HotMode::Custom, 1);
-    let cache = AssetCache::with_source(src.clone());
+    // (leaked in static mode: enhance_hot_reloading needs 'static; the runtime unwinds the reloader at the end of the run)
+    let cache: &'static AssetCache<SimSource> = Box::leak(Box::new(AssetCache::with_source(src.clone())));
     // preload in two rounds so that mutual look-ups see each other
     for round in 0..2 {
         for &i in &w.preload {
@@ -244,10 +249,14 @@ fn scenario(w: Work, nt: Shared<bool>) {
             cache.hot_reload();
         }
     }
+    if w.static_mode {
+        cache.enhance_hot_reloading();
+        detsim::count("reach.hot_reload_after_enhance");
+    }
     let calls: Shared<Vec<(usize, u64, u64)>> = shared(vec![]);
     let others: Shared<Vec<(usize, u64, u64)>> = shared(vec![]);
     {
-        let (cache, src) = (&cache, &src);
+        let (cache, src) = (cache, &src);
         let looks = &w.looks;
         detsim::thread::scope(|s| {
             for (t, ops) in w.threads.iter().enumerate() {
@@ -322,7 +331,9 @@ fn scenario(w: Work, nt: Shared<bool>) {
     *nt.lock().unwrap() = overlap_calls || overlap_other;
     // a last call after everything settled still returns
     cache.hot_reload();
-    match_passes(&calls);
+    if !w.static_mode {
+        match_passes(&calls);
+    }
 }
 
 /// `calls`: (thread, invoke seq, return seq). Uses the pass_end probes recorded by hook H6.
